@@ -42,7 +42,7 @@ from ..docstrings import (
 )
 from ..iodata import IOData
 from ..periodic import num2sym, sym2num
-from ..utils import LineIterator, LoadError, angstrom
+from ..utils import DumpError, LineIterator, LoadError, angstrom
 
 __all__ = ()
 
@@ -110,6 +110,9 @@ def load_many(lit: LineIterator) -> Iterator[dict]:
 @document_dump_one("SDF", ["atcoords", "atnums"], ["title", "bonds"])
 def dump_one(f: TextIO, data: IOData):
     """Do not edit this docstring. It will be overwritten."""
+    nbond = 0 if data.bonds is None else len(data.bonds)
+    if data.natom > 999 or nbond > 999:
+        raise DumpError("The V2000 SDF format supports at most 999 atoms and 999 bonds.", f)
     print(data.title or "Created with IOData", file=f)
     print("", file=f)
     print("", file=f)
